@@ -1456,12 +1456,17 @@ main (int argc, char **argv)
 #endif
           fprintf (out, ",\"blocksize\":%d", livesz);
           {                       /* the application fields (setting, input) of the block the handle owns now: all zero? */
-            int appzero = 1;
+            int appzero = 1, tailzero = 1;
             if (a_h->data && livesz >= CD_SIZE)
-              for (size_t i = OFF_SETTING; i < OFF_RESERVED; i++)
-                if (((unsigned char *) a_h->data)[i])
-                  appzero = 0;
-            fprintf (out, ",\"appzero\":%d", appzero);
+              {
+                for (size_t i = OFF_SETTING; i < OFF_RESERVED; i++)
+                  if (((unsigned char *) a_h->data)[i])
+                    appzero = 0;
+                for (size_t i = OFF_SETTING; i < CD_SIZE; i++)      /* everything after the output field */
+                  if (((unsigned char *) a_h->data)[i])
+                    tailzero = 0;
+              }
+            fprintf (out, ",\"appzero\":%d,\"tailzero\":%d", appzero, tailzero);
           }
           if (a_h->data && livesz >= CD_SIZE)
             emit_obj_projection (a_h->data, pre_img, 0);
